@@ -99,6 +99,7 @@ impl Block for ZeroCrossing {
         } else {
             o.len()
         };
+        let mut full = false;
         for sample in input.iter() {
             n += 1;
             if self.counter == (self.last_cross + (self.clock / 2.0)) as u64 {
@@ -109,7 +110,8 @@ impl Block for ZeroCrossing {
                 opos += 1;
                 self.last_cross += self.clock;
                 if opos == max_out {
-                    break;
+                    // Finish the bookkeeping for this sample before stopping.
+                    full = true;
                 }
             }
 
@@ -127,6 +129,9 @@ impl Block for ZeroCrossing {
             if self.counter > step_back && self.last_cross as u64 > step_back {
                 self.counter -= step_back;
                 self.last_cross -= step_back as f32;
+            }
+            if full {
+                break;
             }
         }
         input.consume(n);
